@@ -194,7 +194,15 @@ def run(chk):
         ok = exempt or (bool(saves) and all(min(s["l"] for s in saves) <= d["l"] for d in disp))
         r4.ob("%s saves its arguments before dispatch" % ident, ok, f.where, f["q"],
               "Function_Push_Pop frame without save_params before the dispatch call (saves at lines %s, dispatch at %s)" % ([s["l"] for s in saves], [d["l"] for d in disp]))
-    r4.require(5, "call nodes")
+    # the exemption above rests on this: the non-saving node is created only where the call's value is discarded
+    from .c02 import value_discarding_sites
+    vs = value_discarding_sites(prog)
+    r4.anchor(len(vs) >= 1, "creation sites of Unused_Return_Fun_Call_AST_Node (found %d)" % len(vs))
+    for i, (f, n, v, d) in enumerate(sorted(vs, key=lambda t: t[1]["l"])):
+        r4.ob("%s: the non-saving call node (site %d) replaces only calls whose value is discarded" % (strip_targs(f["q"]).replace("chaiscript::optimizer::", ""), i + 1), v == "ok",
+              "%s:%d" % (f["file"], n["l"]), f["q"],
+              "replaces %s: that call's result is still used by the caller while its argument temporaries are no longer kept alive" % d)
+    r4.require(6, "call nodes")
 
     # ------------------------------------------------------------------ R11.5
     r5 = chk.rule("R11.5", "Object_Data::get: owning forms store a shared_ptr and are not references; non-owning forms are marked as references; the cached pointer comes from the stored object",
